@@ -318,6 +318,11 @@ type c34Result struct {
 func c34Inc(policy string, g *vkit.Rand, view int64) uint32 {
 	switch policy {
 	case "drip":
+		if view < 0 {
+			// a SETTINGS_INITIAL_WINDOW_SIZE cut left the window negative: climb back in a few
+			// WINDOW_UPDATEs (each still arrives at a negative window) instead of 1-40 octets a time
+			return uint32(-view/3) + uint32(g.Range(1, 40))
+		}
 		if g.Bool() {
 			return 1
 		}
@@ -414,7 +419,7 @@ func c34RunCase(r *vkit.Run, cs *c34Case) (res c34Result) {
 			}
 			c.conn += int64(inc)
 			wus = append(wus, wu{0, inc})
-			if cs.ConnPolicy == "drip" {
+			if cs.ConnPolicy == "drip" && c.conn > 0 {
 				break
 			}
 		}
@@ -440,8 +445,8 @@ func c34RunCase(r *vkit.Run, cs *c34Case) (res c34Result) {
 				}
 				c.win[id] += int64(inc)
 				wus = append(wus, wu{id, inc})
-				if p.Policy == "drip" {
-					break
+				if p.Policy == "drip" && c.win[id] > 0 {
+					break // one small grant per round once the window is positive again
 				}
 			}
 		}
